@@ -203,6 +203,7 @@ fn run_query(t: &[&str], out: &mut RunOut, line: &str) -> (String, Option<String
 }
 
 // ---------- histories (C01, C03, C04) ----------
+#[derive(Clone)]
 struct Hist {
     buf: Vec<u8>,
     shadow: Option<Vec<(usize, Vec<u8>)>>, // (tag index, value) — only for histories from a zeroed buffer
@@ -277,6 +278,68 @@ fn op_get<const D: u64>(buf: &[u8], rep: usize) -> Result<String, ProgramError> 
     }
     let (lo, hi) = range_of(buf, s);
     Ok(format!("{lo}:{hi}:{}", hex(s)))
+}
+
+// ---- the same operations on a handle that stays open (`multi`): a caller may keep one `TlvStateMut` for several
+// mutations, and the bytes must not depend on whether it does
+fn hop_alloc<const D: u64>(st: &mut TlvStateMut, base: usize, len: usize, allow: bool) -> Result<String, ProgramError> {
+    let (s, rep) = st.alloc::<Tag<D>>(len, allow)?;
+    let lo = s.as_ptr() as usize - base;
+    Ok(format!("{}:{}:{}", lo, lo + s.len(), rep))
+}
+fn hop_init_n<const D: u64, const N: usize>(st: &mut TlvStateMut, base: usize, allow: bool) -> Result<String, ProgramError> {
+    let (v, rep) = st.init_value::<Val<D, N>>(allow)?;
+    let lo = v as *const _ as usize - base;
+    Ok(format!("{}:{}:{}", lo, lo + N, rep))
+}
+fn hop_init<const D: u64>(st: &mut TlvStateMut, base: usize, sidx: usize, allow: bool) -> Result<String, ProgramError> { with_size!(sidx, hop_init_n, D, st, base, allow) }
+fn hop_realloc<const D: u64>(st: &mut TlvStateMut, base: usize, len: usize, rep: usize) -> Result<String, ProgramError> {
+    let s = if rep == 0 && len % 2 == 0 { st.realloc_first::<Tag<D>>(len)? } else { st.realloc_with_repetition::<Tag<D>>(len, rep)? };
+    let lo = s.as_ptr() as usize - base;
+    Ok(format!("{}:{}", lo, lo + s.len()))
+}
+fn hop_write<const D: u64>(st: &mut TlvStateMut, rep: usize, v: &[u8]) -> Result<String, ProgramError> {
+    let s = if rep == 0 && v.len() % 2 == 0 { st.get_first_bytes_mut::<Tag<D>>()? } else { st.get_bytes_with_repetition_mut::<Tag<D>>(rep)? };
+    if s.len() != v.len() { return Err(ProgramError::InvalidArgument); }
+    s.copy_from_slice(v);
+    Ok("()".into())
+}
+fn hop_typed_n<const D: u64, const N: usize>(st: &mut TlvStateMut, rep: usize, v: &[u8]) -> Result<String, ProgramError> {
+    let r = if rep == 0 && v.first().map_or(true, |b| b % 2 == 0) { st.get_first_value_mut::<Val<D, N>>()? } else { st.get_value_with_repetition_mut::<Val<D, N>>(rep)? };
+    *r = Val(v.try_into().expect("typed write value length"));
+    Ok("()".into())
+}
+fn hop_typed<const D: u64>(st: &mut TlvStateMut, sidx: usize, rep: usize, v: &[u8]) -> Result<String, ProgramError> { with_size!(sidx, hop_typed_n, D, st, rep, v) }
+fn hop_pack<const D: u64>(st: &mut TlvStateMut, rep: usize, v: &[u8]) -> Result<String, ProgramError> {
+    if rep == 0 && v.len() % 2 == 0 { st.pack_first_variable_len_value(&Raw::<D>(v.to_vec()))?; } else { st.pack_variable_len_value_with_repetition(&Raw::<D>(v.to_vec()), rep)?; }
+    Ok("()".into())
+}
+fn hop_allocpack<const D: u64>(st: &mut TlvStateMut, allow: bool, v: &[u8]) -> Result<String, ProgramError> {
+    let rep = st.alloc_and_pack_variable_len_entry(&Raw::<D>(v.to_vec()), allow)?;
+    Ok(format!("{rep}"))
+}
+/// all sub-operations of a `multi` line on ONE handle; `None` = panicked
+fn multi_on_one_handle(buf: &mut [u8], subs: &[Vec<&str>]) -> Option<Result<Vec<String>, ProgramError>> {
+    guarded(|| {
+        let base = buf.as_ptr() as usize;
+        let mut st = TlvStateMut::unpack(buf)?;
+        let mut rs = vec![];
+        for t in subs {
+            let num = |i: usize| -> usize { t[i].parse().unwrap() };
+            let r: Result<String, ProgramError> = match t[0] {
+                "alloc" => with_tag!(num(1), hop_alloc, &mut st, base, num(2), num(3) == 1),
+                "init" => with_tag!(num(1), hop_init, &mut st, base, num(2), num(3) == 1),
+                "realloc" => with_tag!(num(1), hop_realloc, &mut st, base, num(2), num(3)),
+                "write" => with_tag!(num(1), hop_write, &mut st, num(2), &unhex(t[3])),
+                "typed" => with_tag!(num(1), hop_typed, &mut st, num(2), num(3), &unhex(t[4])),
+                "pack" => with_tag!(num(1), hop_pack, &mut st, num(2), &unhex(t[3])),
+                "allocpack" => with_tag!(num(1), hop_allocpack, &mut st, num(2) == 1, &unhex(t[3])),
+                other => panic!("multi sub-op {other}"),
+            };
+            rs.push(match &r { Ok(x) => format!("ok {x}"), Err(x) => e(x) });
+        }
+        Ok(rs)
+    })
 }
 
 fn shadow_encode(sh: &[(usize, Vec<u8>)], n: usize) -> Vec<u8> {
@@ -408,6 +471,32 @@ fn hist_op(h: &mut Hist, t: &[&str]) -> (String, Option<String>) {
     (format!("{} buf={}", s, hex(&after)), err)
 }
 
+/// `O multi <op> / <op> / ...` — the mutations run on one open handle.  The logical entry list (and every per-step
+/// demand) is taken from running the same steps one by one on a copy; what the property adds is that the bytes after
+/// the sequence are the canonical encoding of that list however the caller held its handle.
+fn hist_multi(h: &mut Hist, t: &[&str]) -> (String, Option<String>) {
+    let subs: Vec<Vec<&str>> = t.split(|x| *x == "/").map(|x| x.to_vec()).collect();
+    let before_opens = TlvStateBorrowed::unpack(&h.buf).is_ok();
+    let mut h2 = h.clone();
+    let mut err: Option<String> = None;
+    for sub in &subs {
+        let (_, e1) = hist_op(&mut h2, sub);
+        if err.is_none() { err = e1; }
+    }
+    let r = multi_on_one_handle(&mut h.buf[..], &subs);
+    let s = match &r { None => "panic".to_string(), Some(Ok(rs)) => rs.join(";"), Some(Err(x)) => e(x) };
+    if r.is_none() && before_opens { err = Some("a sequence of mutations on one handle panicked on a buffer that opens".into()); }
+    if let Some(sh) = &h2.shadow {
+        if shadow_encode(sh, h.buf.len()) != h.buf {
+            err = Some("after several mutations through one handle the raw bytes differ from the canonical encoding of the logical entry list".into());
+        }
+    }
+    let buf = std::mem::take(&mut h.buf);
+    *h = h2;
+    h.buf = buf;
+    (format!("multi {} buf={}", s, hex(&h.buf)), err)
+}
+
 pub fn run(prop: &str, cases: &[String]) -> RunOut {
     let mut out = RunOut::default();
     let mut hist: Option<Hist> = None;
@@ -501,7 +590,7 @@ pub fn run(prop: &str, cases: &[String]) -> RunOut {
             }
             "O" => {
                 let h = hist.as_mut().expect("O outside history");
-                let r = hist_op(h, &t[1..]);
+                let r = if t[1] == "multi" { hist_multi(h, &t[2..]) } else { hist_op(h, &t[1..]) };
                 text.push_str(" ; "); text.push_str(line);
                 out.stats.bump(&format!("op:{}:{}", t[1], if r.0.starts_with("ok") { "ok" } else if r.0.starts_with("err") { "err" } else { "panic" }));
                 r
@@ -675,6 +764,22 @@ pub fn generate_hist(prop: &str, tier: &str, rng: &mut Rng) -> Vec<String> {
                 }
                 18 => v.push("O discs".into()),
                 _ => v.push("O reopen".into()),
+            }
+        }
+        // one history in three keeps its handle open across runs of 2-4 consecutive mutations
+        if rng.chance(1, 3) {
+            let start = v.iter().rposition(|l| l.starts_with("B ")).unwrap() + 1;
+            let ops: Vec<String> = v.drain(start..).collect();
+            let is_mut = |l: &String| ["O alloc ", "O init ", "O realloc ", "O write ", "O typed ", "O pack ", "O allocpack "].iter().any(|p| l.starts_with(p));
+            let mut i = 0;
+            while i < ops.len() {
+                let mut j = i;
+                let want = rng.range(2, 5) as usize;
+                while j < ops.len() && is_mut(&ops[j]) && j - i < want { j += 1; }
+                if j - i >= 2 {
+                    v.push(format!("O multi {}", ops[i..j].iter().map(|l| l[2..].to_string()).collect::<Vec<_>>().join(" / ")));
+                    i = j;
+                } else { v.push(ops[i].clone()); i += 1; }
             }
         }
         // all lookups at the end
